@@ -107,12 +107,16 @@ func indent(s string) string {
 // inside the innermost of len(chain) goroutines, each started by the given spawn form from the level
 // above; the main program then blocks on a channel nobody serves. mid says what the intermediate
 // goroutines do after having spawned the next level: "exit" or "loop" (tick forever as well).
-func render(sh *shape, tail string, chain []string, mid string) string {
+func render(sh *shape, tail string, chain []string, mid string, entry bool) string {
 	body := sh.Body
 	if tail == "loop" {
 		body += "\nfor { tick() }"
 	}
 	if len(chain) == 0 {
+		if entry {
+			// the workload is the body of a function that the host calls (risor.Call, vm.Call)
+			return fmt.Sprintf("func entry() {\n%s\n}\n", indent(body))
+		}
 		return body + "\n"
 	}
 	var b strings.Builder
@@ -125,9 +129,43 @@ func render(sh *shape, tail string, chain []string, mid string) string {
 		}
 		fmt.Fprintf(&b, "func lvl%d() {\n%s\n}\n", l, indent(inner))
 	}
+	if entry {
+		fmt.Fprintf(&b, "func entry() {\n%s\n}\n", indent(spawnStmt(chain[0], "lvl1")+"\n<-hold"))
+		return b.String()
+	}
 	b.WriteString(spawnStmt(chain[0], "lvl1") + "\n")
 	b.WriteString("<-hold\n")
 	return b.String()
+}
+
+// Reuse forms: the workload is the 2nd or 3rd invocation on ONE virtual machine, and every invocation
+// gets one and the same cancellable / deadline context (the way risor.Call, a REPL session or an
+// embedder that keeps a VM around use the API). The earlier invocations terminate by themselves and
+// do not tick; the cancellation arrives while the last one runs.
+type reuseForm struct {
+	Name  string
+	Entry bool // the workload is a function `entry` called by the host
+	What  string
+}
+
+var reuseForms = []reuseForm{
+	{"risor.Call", true, "risor.Call(ctx, code, \"entry\") = RunCode(ctx) then Call(ctx) on one VM"},
+	{"runcode-call", true, "vm.RunCode(ctx, code) then vm.Call(ctx, entry) on one VM"},
+	{"runcode-call-call", true, "vm.RunCode(ctx, code), vm.Call(ctx, quick), then vm.Call(ctx, entry) on one VM"},
+	{"eval-vm-2nd", false, "risor.Eval(ctx, `1 + 1`, WithVM(m)) then risor.Eval(ctx, program, WithVM(m))"},
+	{"eval-vm-3rd", false, "two terminating risor.Eval(ctx, .., WithVM(m)) then risor.Eval(ctx, program, WithVM(m))"},
+	{"eval-vm-2nd-after-error", false, "risor.Eval(ctx, `[0][5]`, WithVM(m)) (fails) then risor.Eval(ctx, program, WithVM(m))"},
+	{"eval-vm-2nd-value-ctx", false, "risor.Eval(ctx, `1 + 1`, WithVM(m)) then risor.Eval(context.WithValue(ctx, k, v), program, WithVM(m))"},
+	{"repl-run-2nd", false, "REPL protocol: compile `warm := 1`, vm.New(code).Run(ctx); compile the program after it, Run(ctx) again"},
+}
+
+func reuseByName(n string) *reuseForm {
+	for i := range reuseForms {
+		if reuseForms[i].Name == n {
+			return &reuseForms[i]
+		}
+	}
+	return nil
 }
 
 // tickers is the number of goroutines that may be ticking concurrently when the context is cancelled.
